@@ -447,9 +447,12 @@ Tick(d) ==
 (***************************************************************************)
 (* handleUnrecognizedMethod and InvalidateCache                            *)
 (***************************************************************************)
+\* a request the cache does not answer from its store goes to the origin - unless it says only-if-cached
+\* (the pinned tree forwarded those too)
 Bypass ==
   /\ ex.pc = "bypass"
-  /\ ex' = [ex EXCEPT !.pc = "origin", !.purpose = "bypass"]
+  /\ ex' = IF Has(ex.rq, "only-if-cached") /\ "oic_bypass_forwards" \notin Defects THEN [ex EXCEPT !.pc = "504"]
+            ELSE [ex EXCEPT !.pc = "origin", !.purpose = "bypass"]
   /\ UNCHANGED <<now, idx, ent, ctr, led, hist>>
 
 IdsOf(refs) == [i \in 1..Len(refs) |-> <<"ent", refs[i].id>>]
